@@ -18,6 +18,10 @@ FnOK(f) ==
   /\ (f.ret = "borrow-deps" => f.deps.pass = "reflife")
   /\ (f.ret = "borrow-arg" => Len(f.params) >= 1 /\ f.params[1] = "reflife")
   /\ (f.ret = "generic" => Len(f.params) >= 1 /\ f.params[1] = "generic")
+  \* elision in the ORIGINAL function must be unambiguous: exactly one reference among all parameters (the dependency included)
+  /\ (f.ret = "borrow-arg-elided" => /\ Len(f.params) >= 1 /\ f.params[1] = "ref"
+                                     /\ \A j \in DOMAIN f.params : j > 1 => f.params[j] \notin {"ref", "reflife"}
+                                     /\ (f.deps.kind = "nodeps" \/ f.deps.pass = "value"))
   /\ (f.lwhere # "none" => Len(f.params) = 2 /\ f.params[1] = "reflife" /\ f.params[2] = "reflife")
   /\ (f.bound = "where" => \E i \in DOMAIN f.params : f.params[i] = "generic")
   /\ (f.qual = "extern" => ~f.async)
